@@ -348,6 +348,41 @@ func genC16(g *prng.R) c16Case {
 		sc.Requests[0].Body = aliasDoc(act)
 		cs.Info["may_fail"] = true
 		cs.Info["aliased_context"] = true
+		if g.Bool() {
+			// ... or against an object stored under the same alias, as a
+			// client that aliases consistently has it: that is an ordinary
+			// Update and has to take effect (without nulls: how a null is
+			// found under an alias is another question)
+			upd, _ := act["object"].(M)
+			if l, isL := act["object"].(A); isL && len(l) == 1 {
+				upd, _ = l[0].(M)
+			}
+			for id, w := range cs.WantStore {
+				st, _ := sc.Store[id].(M)
+				if wm, isM := w.(M); isM && upd != nil && st != nil {
+					for k, v := range upd {
+						if v == nil {
+							delete(upd, k)
+							if sv, had := st[k]; had {
+								wm[k] = sv
+							}
+						}
+					}
+				}
+			}
+			sc.Requests[0].Body = aliasDoc(act)
+			for id := range cs.WantStore {
+				if st, isM := sc.Store[id].(M); isM {
+					sc.Store[id] = aliasDoc(st)
+				}
+				// what exactly is stored under an alias is finding 52's
+				// business (members held twice); here: the Update is
+				// accepted, stored, listed and delivered
+				cs.WantStore[id] = M{"__any__": true}
+			}
+			cs.Info["may_fail"] = false
+			cs.Info["stored_aliased_too"] = true
+		}
 	}
 	return cs
 }
@@ -409,6 +444,9 @@ func init() {
 				}
 			}
 			for id, want := range cs.WantStore {
+				if wm, isM := want.(M); isM && wm["__any__"] == true {
+					continue // changed by design, content not judged here
+				}
 				got := res.After.Store[id]
 				var wn interface{}
 				mustRoundTrip(want, &wn)
